@@ -410,7 +410,7 @@ class Judge:
 
     # -- one message of the model against what was observed
     def message(self, idx, pid, acked, sender, rcpts, body, helo, perm, temp, lenient, neg_class, cls_hint=None,
-                ack_qps=None, got_reply=True):
+                ack_qps=None, got_reply=True, body_alt=None):
         """pid: queue program pid of this message (None: the daemon never started one);
         acked: bool - positive acknowledgement seen; sender/rcpts/body: what the acknowledgement
         covers according to the protocol; perm/temp/lenient: causes that forbid / may forbid
@@ -439,7 +439,7 @@ class Judge:
             why, rest = check_received(cm["msg"], self.dn, case["env"], helo, case.get("modelfree"))
             if why:
                 self.v("received-field", why, "Received field of the daemon: %s" % why, message_index=idx)
-            elif body is not None and rest != body:
+            elif body is not None and rest != body and (body_alt is None or rest != body_alt):
                 self.v("body-differs", cause, "queued body is not the transmitted one (len %d vs %d)" % (len(rest), len(body)),
                        message_index=idx, first_difference=_firstdiff(rest, body))
             return
@@ -591,9 +591,13 @@ def judge_smtp(res, case, o):
             rec = recs.pop(0) if recs else None
             pid = rec["pid"] if rec else None
             body = ch["decoded"]
+            # a line ". CR x" may be stored with or without its dot (DESIGN 7.3, F7 withdrawn): two readings
+            alt = ch.get("decoded_alt")
             perm, temp, lenient = plan_causes(case, len(body) > 90000)
-            if D and len(body) > D:
+            if D and len(body) > D and (alt is None or len(alt) > D):
                 perm.add("oversize")
+            elif D and (len(body) > D or (alt is not None and len(alt) > D)):
+                lenient.add(("size-depends-on-dot-cr-reading", "perm"))
             if count_hops(body) >= 100:
                 perm.add("hops")
             for z in [mail_zone] + rcpt_zone:
@@ -620,7 +624,8 @@ def judge_smtp(res, case, o):
                 break
             m = RE_ACK.match(r[1])
             if m:
-                J.message(txn, pid, True, mail, list(rcpts), body, helo, perm, temp, lenient, None, ack_qps=[int(m.group(2))])
+                J.message(txn, pid, True, mail, list(rcpts), body, helo, perm, temp, lenient, None, ack_qps=[int(m.group(2))],
+                          body_alt=alt)
             else:
                 cls = "perm" if r[0] is not None and 500 <= r[0] < 600 else "temp" if r[0] is not None and 400 <= r[0] < 500 else None
                 J.message(txn, pid, False, mail, list(rcpts), body, helo, perm, temp, lenient, cls)
@@ -881,7 +886,7 @@ JUDGES = {"smtpd": judge_smtp, "qmtpd": judge_qmtp, "qmqpd": judge_qmqp}
 
 # ------------------------------------------------------------------ workload plan
 
-SMTP_CLASSES = ["plain", "size", "hops", "addrlen", "nul", "peer", "barelf"]
+SMTP_CLASSES = ["plain", "size", "hops", "addrlen", "nul", "peer", "barelf", "sizewire"]
 NS_CLASSES = ["plain", "size", "hops", "addrlen", "nul", "peer", "framing", "framing"]
 
 
